@@ -1273,6 +1273,46 @@ func init() {
 		if y := run(); solo != y {
 			return "MISMATCH same seed, different answers"
 		}
+		// ... nor on the games the engine played before: another game first (with analyses), then the game set up again
+		{
+			ctx := context.Background()
+			e := engine.New(ctx, "n", "x", search.AlphaBeta{Eval: search.Leaf{Eval: eval.Material{}}}, engine.WithZobrist(seed), engine.WithOptions(engine.Options{Noise: 50}))
+			play := func(ms []string) string {
+				var outs []string
+				for _, mv := range append([]string{""}, ms...) {
+					if mv != "" && e.Move(ctx, mv) != nil {
+						return "err"
+					}
+					o2, _ := e.Analyze(ctx, searchctl.Options{DepthLimit: lang.Some(uint(2))})
+					var last search.PV
+					for pv := range o2 {
+						last = pv
+					}
+					e.Halt(ctx)
+					outs = append(outs, fmtScore(last.Score)+pvStr(last.Moves))
+				}
+				return strings.Join(outs, "|")
+			}
+			play([]string{"d2d4", "d7d5", "c2c4"})
+			if e.Reset(ctx, fen.Initial) != nil {
+				return "err"
+			}
+			if got := play(a[1:]); got != solo {
+				return "MISMATCH the same game after another game on the same engine (noise on) answers differently: " + strings.ReplaceAll(got, " ", "_") + " vs " + strings.ReplaceAll(solo, " ", "_")
+			}
+			// noise switched off takes effect with the next game: the answers are those of an engine that never had noise
+			e.SetNoise(0)
+			if e.Reset(ctx, fen.Initial) != nil {
+				return "err"
+			}
+			quiet := play(a[1:])
+			e0 := e
+			e = engine.New(ctx, "n", "x", search.AlphaBeta{Eval: search.Leaf{Eval: eval.Material{}}}, engine.WithZobrist(seed+5), engine.WithOptions(engine.Options{}))
+			if want := play(a[1:]); quiet != want {
+				return "MISMATCH noise switched off and a new game started, yet the answers differ from a noise-free engine's: " + strings.ReplaceAll(quiet, " ", "_") + " vs " + strings.ReplaceAll(want, " ", "_")
+			}
+			_ = e0
+		}
 		// several engines alive at once, used in turn: each must answer as it does alone (the noise source is per engine)
 		ctx := context.Background()
 		mk := func(sd int64) *engine.Engine {
